@@ -126,7 +126,7 @@ void prop_gen(Ctx &c) {
 	std::string params = "seed=" + std::to_string(c.seed) + " max_success=" + std::to_string(c.cases) + " max_size=" + std::to_string(c.size);
 	setenv("RC_PARAMS", params.c_str(), 1);
 	using rgen::R;
-	auto genShift = rc::gen::map(rc::gen::tuple(R(0, 10), R(-366, 367), R(-30, 31), R(0, 10)), [](std::tuple<int, int, int, int> t) {
+	auto genShift = rc::gen::map(rc::gen::tuple(R(0, 10), R(-366, 367), rc::gen::weightedOneOf<int>({{7, R(-30, 31)}, {3, R(-262, 263)}}), R(0, 10)), [](std::tuple<int, int, int, int> t) {
 		computus::Shift s; int k = std::get<0>(t);
 		if (k < 3) { s.d = std::get<1>(t); if (!s.d) s.d = 7; }
 		else { s.has_b = true; s.b = std::get<2>(t); if (k < 5) s.d = std::get<1>(t) % 40; int v = std::get<3>(t);
